@@ -108,6 +108,7 @@ pub enum Grant {
 
 #[derive(Debug)]
 struct ThreadSt {
+  std_id: Option<std::thread::ThreadId>,
   name: String,
   node: u32,
   state: TState,
@@ -1176,6 +1177,7 @@ where
     s.threads.insert(
       tid,
       ThreadSt {
+        std_id: None,
         name: name.clone().unwrap_or_else(|| format!("sim-{tid}")),
         node: n,
         state: TState::Entry,
@@ -1191,6 +1193,14 @@ where
   b.spawn(move || {
     TID.with(|t| t.set(Some(tid)));
     NODE.with(|c| c.set(n));
+    {
+      let mut g = lock();
+      if let Some(s) = g.as_mut() {
+        if let Some(t) = s.threads.get_mut(&tid) {
+          t.std_id = Some(std::thread::current().id());
+        }
+      }
+    }
     let _guard = ExitGuard(tid);
     let _ = wait_for_grant(tid);
     f()
@@ -1326,19 +1336,55 @@ fn driver_step(limit: Option<u64>) -> bool {
   }
 }
 
-/// Run the world (through the step hook) until nothing is enabled at the
-/// current simulated instant.  Used before native blocking calls of the
-/// application thread (thread join, "discovery started" rendezvous).
+/// Run the world (through the step hook) until nothing is enabled within the
+/// next 50 simulated ms.  Used before the "discovery started" rendezvous of
+/// the application thread (a native blocking receive).
 pub fn drive_until_quiescent() {
   if current_tid().is_some() {
     return;
   }
-  let now = now_ns();
+  let limit = now_ns() + 50_000_000;
   let mut guard = 0u32;
-  while driver_step(Some(now)) {
+  while driver_step(Some(limit)) {
     guard += 1;
     if guard > 1_000_000 {
       panic!("simcore: drive_until_quiescent does not terminate");
+    }
+  }
+}
+
+/// Before a native `JoinHandle::join` on the driver: run the world until the
+/// simulated thread with this std thread id has exited.
+pub fn drive_until_thread_exit(id: std::thread::ThreadId) {
+  if current_tid().is_some() {
+    return;
+  }
+  let start = now_ns();
+  let mut guard = 0u32;
+  loop {
+    let state = with(|s| {
+      s.threads
+        .values()
+        .find(|t| t.std_id == Some(id))
+        .map(|t| t.state.clone())
+    });
+    match state {
+      None => {
+        // not (yet) registered: it must at least be in Entry state somewhere; let the world move
+        let any_entry = with(|s| s.threads.values().any(|t| t.state == TState::Entry));
+        if !any_entry {
+          return;
+        }
+      }
+      Some(TState::Exited { .. }) => return,
+      Some(_) => {}
+    }
+    if !driver_step(Some(start + 120_000_000_000)) {
+      panic!("simcore: thread to be joined never exits (simulated deadlock at join)");
+    }
+    guard += 1;
+    if guard > 5_000_000 {
+      panic!("simcore: drive_until_thread_exit does not terminate");
     }
   }
 }
